@@ -21,7 +21,7 @@ POOL_MAX = ("max_pool1d", "max_pool2d")
 
 
 def gen_cases(tier, seed):
-    cases = nncommon.build_cases(tier, seed, "c02", budget={"quick": 160, "thorough": 1200}[tier])
+    cases = nncommon.build_cases(tier, seed, "c02", budget={"quick": 160, "thorough": 4000}[tier])
     out = []
     for c in cases:
         n = c["n"]
